@@ -148,8 +148,13 @@ def _run_rules(ctx):
         ok = a[0].get('l') == 1 and a[1].get('l') == 2 and a[2].get('l') == 3 and a[2]['o'] == 'arg'
         v = t.origin(sv[0][1]['args'][1])
         ok = ok and v['o'] == 'call' and v['bb'] == sc[0][0]
-    rep.check(ok, 'R2', 'set_sampled-sets-the-sample', where(ssb), 'set_value(sample(rng, step_size))',
-              'set_sampled does not set exactly sample(rng, step_size) with the step it was given')
+    ds = None
+    if not ok and not sv:
+        from .common import direct_sampler
+        ds = direct_sampler(ctx)
+        ok = ds is not None and ds['ok']
+    rep.check(ok, 'R2', 'set_sampled-sets-the-sample', where(ssb), ds['why'] if ds else 'set_value(sample(rng, step_size))',
+              'set_sampled does not set exactly sample(rng, step_size) with the step it was given' + (('; ' + ds['why']) if ds else ''))
     rep.note('R3 (one parameter per proposal) is decided by C06.R1; the clamp can only shorten a move (C08.R2)')
     # R3: a rejected move must be undone EXACTLY: an undo that restores a stale value leaves the state one (or two) steps away
     # from the last accepted one, and the next proposal is then larger than one step from it (C06.R3 obligations, imported)
